@@ -75,7 +75,7 @@ class C14(Check):
 
     def bounds(self, tier):
         return dict(round_trips=['ECEF -> ENU(base) -> ECEF(base)', 'ENU -> ECEF(base) -> ENU(base)'], bases=['symbolic ECEF base', 'symbolic geographic base'],
-                    base_origin=['ECEF base', 'geographic base'], closed_form='all lon, lat, h (sin / cos uninterpreted + circle identity)', track='n = 2 observations, wiring and recorded base; re-projection history (project, back to ECEF, project with another base)')
+                    base_origin=['ECEF base', 'geographic base'], closed_form='all lon, lat, h (sin / cos uninterpreted + circle identity)', track='n = 2 observations, wiring and recorded base; re-projection history (project, back to ECEF, project with another base); ENU -> ENU re-basing')
 
     def jobs(self, tier, seed):
         js = []
@@ -85,6 +85,7 @@ class C14(Check):
             js.append(dict(kind='base0', base=base))
             js.append(dict(kind='track', base=base))
             js.append(dict(kind='track2', base=base))
+            js.append(dict(kind='rebase', base=base))
         js.append(dict(kind='wgs84'))
         return js
 
@@ -152,6 +153,29 @@ class C14(Check):
                 loc = base.toENUCoords(base)
                 ctx.reach()
                 ctx.prove(z3.And(zreal(loc.E) == 0, zreal(loc.N) == 0, zreal(loc.U) == 0), 'the local coordinates of the base itself are (0, 0, 0)')
+                return
+            if kind == 'rebase':
+                # ENU -> ENU re-basing of a whole track: every observation must be the point conversion (old recorded base -> new base)
+                from tracklib.core import Track, Obs, ObsTime
+                base2 = oc.ECEFCoords(eng.real('cX', -7e6, 7e6), eng.real('cY', -7e6, 7e6), eng.real('cZ', -7e6, 7e6))
+                p0 = (eng.real('x0', -7e6, 7e6), eng.real('y0', -7e6, 7e6), eng.real('z0', -7e6, 7e6))
+                tr = Track([Obs(oc.ECEFCoords(*p0), ObsTime.readUnixTime(0.0))])
+                tr.toENUCoords(base)
+                old = tr.base
+                mid = tr.getObs(0).position
+                tr.toENUCoords(base2)
+                ctx.reach()
+                w = mid.toENUCoords(old, base2)
+                g = tr.getObs(0).position
+                if not ctx.prove(z3.And(zreal(g.E) == zreal(w.E), zreal(g.N) == zreal(w.N), zreal(g.U) == zreal(w.U)),
+                                 're-basing a local track applies the point conversion from the recorded base to the new base'):
+                    return
+                bg = base2.toGeoCoords()
+                rb = tr.base
+                if not isinstance(rb, oc.GeoCoords):
+                    ctx.fail('the track does not record the (geographic) base it used')
+                    return
+                ctx.prove(z3.And(zreal(rb.lon) == zreal(bg.lon), zreal(rb.lat) == zreal(bg.lat), zreal(rb.hgt) == zreal(bg.hgt)), 'after re-basing the track records the new base')
                 return
             if kind == 'track2':
                 # a history: project, go back to ECEF with the recorded base, project again with ANOTHER base; the base recorded at
@@ -252,6 +276,22 @@ class C14(Check):
                 loc = base.toENUCoords(base)
                 if max(abs(loc.E), abs(loc.N), abs(loc.U)) > 1e-6:
                     return dict(violation='the base %s has local coordinates (%r, %r, %r)' % (base, loc.E, loc.N, loc.U))
+                return dict(violation=None, outputs={})
+            if kind == 'rebase':
+                from tracklib.core import Track, Obs, ObsTime
+                base2 = oc.ECEFCoords(float(inp['cX']), float(inp['cY']), float(inp['cZ']))
+                p = (float(inp['x0']), float(inp['y0']), float(inp['z0']))
+                tr = Track([Obs(oc.ECEFCoords(*p), ObsTime.readUnixTime(0.0))])
+                tr.toENUCoords(base)
+                tr.toENUCoords(base2)
+                b2 = base2.toGeoCoords()
+                rb = tr.base
+                if not isinstance(rb, oc.GeoCoords) or max(abs(rb.lon - b2.lon), abs(rb.lat - b2.lat), abs(rb.hgt - b2.hgt)) > 1e-9:
+                    return dict(violation='track re-based from %s to %s records the base %s' % (base, base2, rb))
+                w = rot_enu(p[0], p[1], p[2], (base2.X, base2.Y, base2.Z), b2.lon, b2.lat)
+                g = tr.getObs(0).position
+                if max(abs(g.E - w[0]), abs(g.N - w[1]), abs(g.U - w[2])) > 1e-2:
+                    return dict(violation='re-basing %r from %s to %s gives (%r, %r, %r), expected %r' % (p, base, base2, g.E, g.N, g.U, w))
                 return dict(violation=None, outputs={})
             if kind == 'track2':
                 from tracklib.core import Track, Obs, ObsTime
